@@ -728,6 +728,13 @@ def handle_violations(machine, prop, merged, shrink_budget=90.0, out=sys.stdout)
                     print(f"note: property={prop} seed={seed} clause={v['clause']}: seen once in a run using real library "
                           f"entropy, not reproducible by construction; looking for a seeded instance", file=out)
                     continue
+                if (r.get("stats", {}).get("outcomes", {}).get("hang") and not res2.get("stats", {}).get("outcomes", {}).get("hang")):
+                    # the run contained an operation that hit the wall-clock watchdog (the one real clock the harness
+                    # keeps, to bound genuine hangs) and the re-execution did not: a starved machine, not the tool - a
+                    # genuine hang is a function of the seed and comes back
+                    print(f"note: property={prop} seed={seed} clause={v['clause']}: an operation hit the wall-clock watchdog "
+                          f"once and finished in time when re-executed (machine load); ignored", file=out)
+                    continue
                 # not a function of the seed alone: before calling it a harness problem, see whether it is a function of
                 # the heap state (the tool keyed something on an object address)
                 found = None
